@@ -289,10 +289,24 @@ def run_tlc(spec, cfg, env, workers=8, timeout=3000, metaname="tlc", extra=(), x
     e = dict(ENV_BASE)
     e.update(env)
     t0 = time.time()
-    p = subprocess.run(cmd, cwd=SPEC, env=e, capture_output=True, text=True)
+    # TLC's output can be gigabytes of record lines: stream it to a file, keep only the other lines in memory
+    raw = meta + ".stdout"
+    with open(raw, "w") as fh:
+        p = subprocess.run(cmd, cwd=SPEC, env=e, stdout=fh, stderr=subprocess.PIPE, text=True)
     shutil.rmtree(meta, ignore_errors=True)
-    out = p.stdout
-    res = {"rc": p.returncode, "out": out, "wall": time.time() - t0, "states": 0, "distinct": 0, "depth": 0}
+    rec_path = meta + ".records"
+    keep = []
+    with open(raw) as fh, open(rec_path, "w") as rf:
+        for line in fh:
+            if line.startswith('<<"'):
+                rf.write(line)
+            else:
+                keep.append(line)
+                if len(keep) > 20000:
+                    del keep[:10000]
+    os.remove(raw)
+    out = "".join(keep)
+    res = {"rc": p.returncode, "out": out, "records_path": rec_path, "wall": time.time() - t0, "states": 0, "distinct": 0, "depth": 0}
     m = re.search(r"(\d+) states generated, (\d+) distinct states found", out)
     if m:
         res["states"] = int(m.group(1))
@@ -312,20 +326,35 @@ def run_tlc(spec, cfg, env, workers=8, timeout=3000, metaname="tlc", extra=(), x
 _line_re = re.compile(r'^<<"([A-Z]+)", (?:"([A-Za-z0-9_]+)", )?"(.*)">>$')
 
 
-def tlc_records(out):
-    """Parse <<"TAG", ["sub",] "json">> lines printed by the specifications."""
-    recs = []
-    for line in out.split("\n"):
-        m = _line_re.match(line.strip())
+def tlc_records(res, only=None):
+    """Generator over the <<"TAG", ["sub",] "json">> lines printed by the specifications.
+    `res` is the result of run_tlc (records are streamed from its file) or a string."""
+    if isinstance(res, dict):
+        fh = open(res["records_path"])
+    else:
+        fh = res.split("\n")
+    for line in fh:
+        line = line.strip()
+        if only and not line.startswith('<<"' + only):
+            continue
+        m = _line_re.match(line)
         if not m:
             continue
         tag, sub, body = m.groups()
         body = body.replace('\\"', '"').replace("\\\\", "\\")
         try:
-            recs.append((tag, sub, json.loads(body)))
+            yield (tag, sub, json.loads(body))
         except Exception as ex:
             raise ToolError("unparseable TLC record: %s (%s)" % (line[:200], ex))
-    return recs
+    if isinstance(res, dict):
+        fh.close()
+
+
+def drop_records(res):
+    try:
+        os.remove(res["records_path"])
+    except OSError:
+        pass
 
 
 # ------------------------------------------------------------------------------------------
